@@ -23,7 +23,7 @@ def rp(name, L, T=4, extra=(), **kw):
                         "c37_name_parse_contract.0:%d" % (T + 1), "c37_ref.0:%d" % (Q + 2), "c37_ref.1:%d" % (R + 2), "c37_ref.2:4", "harness_request_parse.0:%d" % max(Q + 1, T + 2), "harness_request_parse.1:%d" % max(Q + 1, T + 2),
                         "event_mm_calloc_.0:%d" % (Q + 1), "vp_bytes.0:%d" % (L + 1), "server_request_free_answers.0:3", "server_request_free_answers.1:4",
                         "evdns_server_request_add_reply.1:2"],
-             timeout=900, mem_gb=6, cbmc=["--object-bits", "10"],
+             timeout=900, mem_gb=6, cbmc=["--object-bits", "10"], native=False,
              desc="request_parse on every datagram <= %d bytes (exact-size object), decoded names <= %d bytes" % (L, T))
     d.update(kw); return d
 
